@@ -5,6 +5,7 @@ Property theorems (dictionary lemmas: Lemmas/Dict.lean).
 import OsyrisModel
 import OsyrisModel.Spec.DictSpec
 import OsyrisProofs.Lemmas.Dict
+import Mathlib.Tactic.Linarith
 
 namespace Osyris.C06
 open Osyris Spec
@@ -414,5 +415,155 @@ theorem C06_scalar_gate_witness :
     let g := (DgV.run [] witnessOps).1
     dictKeys g = ["b", "c"] ∧ (g.map (·.2.shape)) = [[3], [4]] ∧ (DgV.run [] witnessOps).2 = [.unit, .unit, .unit, .unit] := by
   decide
+
+/-! ### accepted index objects select real rows -/
+
+theorem normIdx_lt (n : Nat) (i : Int) (k : Nat) (h : normIdx n i = .ok k) : k < n := by
+  unfold normIdx at h
+  simp only at h
+  split at h
+  · cases h
+  · rename_i hc
+    simp only [Bool.or_eq_true, decide_eq_true_eq, not_or, not_lt, not_le] at hc
+    injection h with h
+    subst h
+    split <;> omega
+
+theorem sliceClamp_bounds (N st v : Int) (hN : 0 ≤ N) : sliceLower st ≤ sliceClamp N st v ∧ sliceClamp N st v ≤ sliceUpper N st := by
+  unfold sliceClamp sliceLower sliceUpper
+  split_ifs <;> constructor <;> omega
+
+theorem sliceStart_bounds (N st : Int) (a : Option Int) (hN : 0 ≤ N) :
+    sliceLower st ≤ sliceStart N st a ∧ sliceStart N st a ≤ sliceUpper N st := by
+  cases a with
+  | none => simp only [sliceStart, sliceLower, sliceUpper]; split_ifs <;> constructor <;> omega
+  | some v => exact sliceClamp_bounds N st v hN
+
+theorem sliceStop_bounds (N st : Int) (a : Option Int) (hN : 0 ≤ N) :
+    sliceLower st ≤ sliceStop N st a ∧ sliceStop N st a ≤ sliceUpper N st := by
+  cases a with
+  | none => simp only [sliceStop, sliceLower, sliceUpper]; split_ifs <;> constructor <;> omega
+  | some v => exact sliceClamp_bounds N st v hN
+
+/-- every element of `range(s0, s1, st)` lies strictly between the two ends -/
+theorem sliceCount_elem (st s0 s1 : Int) (k : Nat) (hk : k < sliceCount st s0 s1) :
+    (0 < st → s0 ≤ s0 + k * st ∧ s0 + k * st < s1) ∧ (st < 0 → s1 < s0 + k * st ∧ s0 + k * st ≤ s0) := by
+  unfold sliceCount at hk
+  constructor
+  · intro hst
+    rw [if_pos hst] at hk
+    split at hk
+    · rw [Int.lt_toNat] at hk
+      have h1 : (k : Int) ≤ (s1 - s0 - 1) / st := by omega
+      have h2 : (k : Int) * st ≤ s1 - s0 - 1 := (Int.le_ediv_iff_mul_le hst).mp h1
+      have h3 : 0 ≤ (k : Int) * st := Int.mul_nonneg (by omega) (by omega)
+      constructor <;> omega
+    · omega
+  · intro hst
+    rw [if_neg (by omega)] at hk
+    split at hk
+    · rw [Int.lt_toNat] at hk
+      have h1 : (k : Int) ≤ (s0 - s1 - 1) / (-st) := by omega
+      have h2 : (k : Int) * (-st) ≤ s0 - s1 - 1 := (Int.le_ediv_iff_mul_le (by omega)).mp h1
+      have h3 : 0 ≤ (k : Int) * (-st) := Int.mul_nonneg (by omega) (by omega)
+      have h4 : (k : Int) * (-st) = -((k : Int) * st) := Int.mul_neg _ _
+      constructor <;> omega
+    · omega
+
+theorem sliceRows_lt (n : Nat) (a b c : Option Int) (rows : List Nat) (h : sliceRows n a b c = .ok rows) :
+    ∀ r ∈ rows, r < n := by
+  unfold sliceRows at h
+  simp only at h
+  split at h
+  · cases h
+  · rename_i hst
+    injection h with h
+    subst h
+    intro r hr
+    simp only [List.mem_map, List.mem_range] at hr
+    obtain ⟨k, hk, rfl⟩ := hr
+    have hst' : c.getD 1 ≠ 0 := by simpa using hst
+    have hN : (0 : Int) ≤ (n : Int) := by omega
+    have b0 := sliceStart_bounds n (c.getD 1) a hN
+    have b1 := sliceStop_bounds n (c.getD 1) b hN
+    have e := sliceCount_elem _ _ _ k hk
+    unfold sliceLower sliceUpper at b0 b1
+    rcases lt_or_gt_of_ne hst' with hneg | hpos
+    · have := e.2 hneg
+      rw [if_pos hneg] at b0 b1
+      omega
+    · have := e.1 hpos
+      rw [if_neg (by omega)] at b0 b1
+      omega
+
+theorem maskRows_lt (m : List Bool) : ∀ r ∈ maskRows m, r < m.length := by
+  intro r hr
+  simp only [maskRows, List.mem_filter, List.mem_range] at hr
+  exact hr.1
+
+theorem mapM_normIdx_lt (n : Nat) : ∀ (is : List Int) (rows : List Nat), is.mapM (normIdx n) = .ok rows → ∀ r ∈ rows, r < n := by
+  intro is
+  induction is with
+  | nil => intro rows h r hr; simp [List.mapM_nil, pure, Except.pure] at h; subst h; simp at hr
+  | cons i is ih =>
+    intro rows h r hr
+    rw [List.mapM_cons] at h
+    cases hi : normIdx n i with
+    | error e => simp [hi, bind, Except.bind] at h
+    | ok k =>
+      cases hr' : is.mapM (normIdx n) with
+      | error e => simp [hi, hr', bind, Except.bind] at h
+      | ok rest =>
+        simp [hi, hr', bind, Except.bind, pure, Except.pure] at h
+        subst h
+        rcases List.mem_cons.mp hr with rfl | hmem
+        · exact normIdx_lt n i _ hi
+        · exact ih rest hr' r hmem
+
+/-- **C06 (indices are real rows)**: whatever index object is accepted on an axis of length `n`, every selected row is a
+    row of the source (`< n`): the totalised reads (`getD`) of the alignment theorems never fall back to a default -/
+theorem rows_lt (n : Nat) (ix : Index) (rows : List Nat) (d : Bool) (h : ix.rows n = .ok (rows, d)) : ∀ r ∈ rows, r < n := by
+  cases ix with
+  | int i =>
+    simp only [Index.rows, bind, Except.bind, pure, Except.pure] at h
+    cases hi : normIdx n i with
+    | error e => simp [hi] at h
+    | ok k =>
+      simp [hi] at h
+      intro r hr
+      rw [← h.1] at hr
+      simp at hr; subst hr
+      exact normIdx_lt n i _ hi
+  | slice a b c =>
+    simp only [Index.rows, bind, Except.bind, pure, Except.pure] at h
+    cases hs : sliceRows n a b c with
+    | error e => simp [hs] at h
+    | ok rs =>
+      simp [hs] at h
+      rw [← h.1]
+      exact sliceRows_lt n a b c rs hs
+  | mask m =>
+    simp only [Index.rows] at h
+    split at h
+    · cases h
+    · rename_i hc
+      simp only [pure, Except.pure] at h
+      injection h with h
+      injection h with h1 h2
+      subst h1
+      intro r hr
+      have := maskRows_lt m r hr
+      simp only [bne_iff_ne, ne_eq, Bool.and_eq_true, not_and, Decidable.not_not] at hc
+      by_cases hm : m.length = n
+      · omega
+      · have := hc hm; omega
+  | fancy is =>
+    simp only [Index.rows, bind, Except.bind, pure, Except.pure] at h
+    cases hs : is.mapM (normIdx n) with
+    | error e => simp [hs] at h
+    | ok rs =>
+      simp [hs] at h
+      rw [← h.1]
+      exact mapM_normIdx_lt n is rs hs
 
 end Osyris.C06
